@@ -559,6 +559,7 @@ func (c *Ctx) evalCall(env *CEnv, e *ast.CallExpr) CVal {
 			}
 			var binders []string
 			var ranges []string
+			var qsyms, qsorts []string
 			for _, fld := range fl.Type.Params.List {
 				tn := fld.Type.(*ast.Ident).Name
 				t := basicTypes[tn]
@@ -570,6 +571,8 @@ func (c *Ctx) evalCall(env *CEnv, e *ast.CallExpr) CVal {
 					c.n++
 					sym := fmt.Sprintf("q_%s_%d", nm.Name, c.n)
 					binders = append(binders, fmt.Sprintf("(%s %s)", sym, srt))
+					qsyms = append(qsyms, sym)
+					qsorts = append(qsorts, srt)
 					ne.bound[nm.Name] = CVal{V: Sc{sym, srt}, T: t}
 				}
 			}
@@ -582,7 +585,11 @@ func (c *Ctx) evalCall(env *CEnv, e *ast.CallExpr) CVal {
 				q = "exists"
 			}
 			c.quantified = true
-			return CVal{V: Sc{fmt.Sprintf("(%s (%s) %s)", q, strings.Join(binders, " "), body), "Bool"}, T: tBool}
+			full := fmt.Sprintf("(%s (%s) %s)", q, strings.Join(binders, " "), body)
+			if q == "forall" {
+				c.registerForall(full, qsyms, qsorts, body)
+			}
+			return CVal{V: Sc{full, "Bool"}, T: tBool}
 		case "old":
 			ne := *env
 			ne.inOld = true
